@@ -138,6 +138,11 @@ func genPacket(r *Rng) *astits.Packet {
 			} else if r.Bool() {
 				af.StuffingLength = r.Intn(max - used + 1)
 			}
+			// Length is filled in by the parser; the writer computes the length byte from the content, so a value
+			// left over from an earlier parse (the packet was edited since) must not matter
+			if r.Bool() {
+				af.Length = r.Intn(184)
+			}
 			p.AdaptationField = af
 		}
 	}
@@ -466,6 +471,9 @@ func wfPacket(p *astits.Packet) bool {
 	}
 	if !h.HasPayload && len(p.Payload) > 0 {
 		return false
+	}
+	if h.HasPayload && len(p.Payload) == 0 {
+		return false // adaptation_field_control '11' leaves at least one payload byte (adaptation_field_length <= 182)
 	}
 	if af := p.AdaptationField; af != nil && !af.IsOneByteStuffing {
 		if af.HasPCR != (af.PCR != nil) || af.HasOPCR != (af.OPCR != nil) || af.HasAdaptationExtensionField != (af.AdaptationExtensionField != nil) {
